@@ -80,7 +80,7 @@ func runAnch(rep *vh.Report, env vh.Env) {
 	if env.Replay != "" && only < 0 {
 		return
 	}
-	n := env.Pick(192, 1600)
+	n := env.Pick(192, 1200)
 	vh.ForEach(n, 0, only, func(i int) { anchCase(rep, env, i) })
 	if env.Replay == "" {
 		rep.Floor("anch_route_sets", 100)
